@@ -274,11 +274,12 @@ def slots(s, pre=()):
         if m["k"] == "f":
             p = ".".join(pre + (m["name"],))
             t = m["type"]
-            if t[0] == "p":
+            named = t[0] == "n" and t[3][0] == "b"       # `type PInt *int`, `type Tags []string`: pointer / slice KINDS (as reflect sees them)
+            if t[0] == "p" or (named and t[3][1].startswith("*")):
                 out.append(p)
-            elif t[0] == "s":
+            elif t[0] == "s" or (named and t[3][1].startswith("[]")):
                 out.append(p)
-                if t[1][0] == "p":
+                if t[0] == "s" and t[1][0] == "p":
                     out += [p + "#0", p + "#1", p + "#2"]
         else:
             if m["decl"].get("back"):
